@@ -218,6 +218,8 @@ type Residue struct {
 	// Holding reports whether process p legitimately holds the list lock after this call
 	// (an open Addition).
 	Holding func(p *mc.Proc) bool
+	// Stale names files that were already unlisted leftovers when the scenario started.
+	Stale map[string]bool
 }
 
 func (m *Residue) AfterOp(w *mc.World, ev *mc.Event) {
@@ -300,6 +302,9 @@ func (m *Residue) AtEnd(w *mc.World) {
 	for _, n := range w.Names() {
 		if n == "tables.list" || listed[n] {
 			continue
+		}
+		if m.Stale[n] && w.Lookup(n).Creator < 0 {
+			continue // a leftover older than the scenario; nobody is obliged to remove it
 		}
 		w.Violate(m.Prop, fmt.Sprintf("residue:%s-at-quiescence", PathClass(n)),
 			fmt.Sprintf("all handles idle, no crash, but the directory still holds %s (created by p%d); list=%v", n, w.Lookup(n).Creator, ListNames(w)))
